@@ -431,6 +431,63 @@ def h_sets(ctx):
     return Outcome(f"{mode}:{'ok' if not vs else 'bad'}", vs, nontrivial=(sname, mode, repr(ctx.choices)))
 
 
+# ------------------------------------------------------------------ KeySet subclasses, defined at different moments
+SUB_OPS = [("sign", "HS256", "oct"), ("sign", "ES256", "EC"), ("sign", "RS256", "RSA"), ("encrypt", "A256KW", "oct"), ("encrypt", "RSA-OAEP", "RSA"),
+           ("encrypt", "ECDH-ES", "EC"), ("encrypt", "ECDH-1PU", "EC")]
+
+
+def h_subclass(ctx):
+    """`class MyKeySet(KeySet)` (the way to plug in a custom key registry) may be written in a module that imports joserfc.jwk before
+    anything else of the library, or before a draft algorithm is registered: picking a key without kid still respects the key type
+    the algorithm requires."""
+    import sys
+    import importlib
+    when = ctx.choose("subclass_defined", ["after-everything", "before-jws-and-jwe-are-imported", "before-the-ecdh-1pu-draft-is-registered"])
+    what, alg, kty = ctx.choose("operation", SUB_OPS)
+    for name in [m for m in sys.modules if m == "joserfc" or m.startswith("joserfc.")]:
+        del sys.modules[name]
+    importlib.invalidate_caches()
+    import joserfc.jwk as jwk_mod          # only this much of the library is loaded now
+
+    def define():
+        class ApplicationKeySet(jwk_mod.KeySet):
+            """an application key set with room for its own registry_cls"""
+        return ApplicationKeySet
+    cls = define() if when == "before-jws-and-jwe-are-imported" else None
+    from joserfc import jws, jwe
+    if when == "before-the-ecdh-1pu-draft-is-registered":
+        cls = define()
+    scen.register_drafts()
+    if cls is None:
+        cls = define()
+    members = [scen.key("oct32", 0), scen.key("P-256", 0), scen.key("rsa", 0)]
+    ks = cls([A.jkey(j, "dict") for j in members])
+    seam.install()
+    picked = {}
+
+    def chooser(seq):
+        k = ctx.choose("random_pick", range(len(seq)))
+        picked["key"], picked["n"] = seq[k], len(seq)
+        return seq[k]
+    seam.chooser = chooser
+    try:
+        if what == "sign":
+            r = call(jws.serialize_compact, {"alg": alg}, b"payload", ks, algorithms=[alg])
+        else:
+            sender = A.jkey(scen.key("P-256", 5), "dict") if "1PU" in alg else None
+            r = call(jwe.encrypt_compact, {"alg": alg, "enc": "A128CBC-HS256"}, b"secret", ks, algorithms=[alg, "A128CBC-HS256"], sender_key=sender)
+    finally:
+        seam.chooser = None
+        seam.uninstall()
+    vs = []
+    desc = f"KeySet subclass defined {when}: {what} {alg} without kid from a set of oct, EC and RSA keys"
+    if "key" in picked and picked["key"].key_type != kty:
+        vs.append(viol("a key set subclass picks, without kid, a key of a type the algorithm does not use", f"{desc}: picked {picked['key'].key_type} among {picked['n']} candidates"))
+    elif not r.ok:
+        vs.append(viol("produce without kid fails on a key set subclass that holds a suitable key", f"{desc}: {r.exc!r}"))
+    return Outcome(f"subclass:{when[:6]}:{'ok' if not vs else 'bad'}", vs, nontrivial=(when, what, alg, picked.get("n")))
+
+
 # ------------------------------------------------------------------ E2: a shared KeySet over time
 class SetModel:
     fresh_import = False
@@ -595,5 +652,6 @@ PARTS = [
     Part("consume-several-entries", h_consume_multi, split_depth=3),
     Part("produce-from-set", h_produce, split_depth=3),
     _ps,
+    Part("key-set-subclasses", h_subclass, split_depth=2),
     Part("shared-set-histories", custom=set_histories, engine="E2"),
 ]
